@@ -125,7 +125,13 @@ def execute(ctx, case: dict) -> None:
     if prev_text and not problems:
         case["prev_text"] = prev_text
         try:
-            live = Ace(prev_text, **kwargs)
+            prev_kw = dict(kwargs)
+            if case.get("prev_type"):
+                # the live entry is of the other kind (extended <-> standard): the text assigned decides
+                prev_kw.pop("type", None)
+                if case["prev_type"] == "standard":
+                    prev_kw["type"] = "standard"
+            live = Ace(prev_text, **prev_kw)
             live.line = text
         except Exception as ex:  # pylint: disable=broad-except
             ctx.violation(case, "a valid ACE text was rejected by the line setter of a live entry", f"{type(ex).__name__}: {ex}")
@@ -217,6 +223,9 @@ def run(ctx) -> None:
             line = grammar.messy(rng, (f"{seq} " if seq else "") + f"{rng.choice(['permit', 'deny'])} {text}" + rng.choice(["", "", " log"]))
             case = {"text": line, "platform": "ios", "version": version, "port_nr": rng.random() < 0.3,
                     "protocol_nr": rng.random() < 0.3, "type": "standard"}
+            if rng.random() < 0.5:  # assigned to a live *extended* entry with ports and a destination
+                case["prev_text"] = "permit tcp host 10.0.0.1 eq 80 host 10.0.0.2 eq 443 ack"
+                case["prev_type"] = "extended"
             execute(ctx, case)
             ctx.count("standard_aces")
             ctx.judged(sig=("standard", addr["form"], addr["native"], bool(seq), "log" in line), nontrivial=True)
